@@ -198,11 +198,16 @@ class Sweep(object):
 
 
 def _outermost(cands):
-    """drop candidates that are private helpers inlined into another candidate (they are judged at their callers)"""
+    """drop candidates that are private helpers inlined into (or simply called by) another candidate: they are judged
+    at their callers"""
     keys = {c.key for c in cands}
     out = []
     for c in cands:
         if any(c.key in getattr(o, 'inlined', ()) for o in cands if o.key != c.key):
+            continue
+        if c.name.startswith('_') and not c.name.startswith('__') and any(
+                o.key != c.key and any(isinstance(x, ast.Call) and call_name(x) == c.name for x in ast.walk(getattr(o, 'origin', o).node))
+                for o in cands):
             continue
         if c.key not in [x.key for x in out]:
             out.append(c)
